@@ -81,10 +81,16 @@ func (s *Solver) intBody(t *Term) (string, bool) {
 		}
 		return fmt.Sprintf("(= %s %s)", a(0), a(1)), true
 	case OAdd:
+		if s.hiOf(t.A[0])+s.hiOf(t.A[1]) < float64Pow2(w) {
+			return fmt.Sprintf("(+ %s %s)", a(0), a(1)), true // cannot wrap
+		}
 		return fmt.Sprintf("(mod (+ %s %s) %s)", a(0), a(1), M), true
 	case OSub:
 		return fmt.Sprintf("(mod (- %s %s) %s)", a(0), a(1), M), true
 	case OMul:
+		if s.hiOf(t.A[0])*s.hiOf(t.A[1]) < float64Pow2(w) {
+			return fmt.Sprintf("(* %s %s)", a(0), a(1)), true // cannot wrap
+		}
 		return fmt.Sprintf("(mod (* %s %s) %s)", a(0), a(1), M), true
 	case ONeg:
 		return fmt.Sprintf("(mod (- %s) %s)", a(0), M), true
@@ -207,3 +213,60 @@ func intSortOf(t *Term) string {
 }
 
 var _ = strings.Join
+
+func float64Pow2(w int) float64 {
+	r := 1.0
+	for i := 0; i < w; i++ {
+		r *= 2
+	}
+	return r * 0.999999 // safety margin for floating-point rounding of the bound
+}
+
+// hiOf is a static upper bound of the unsigned value of t (independent of any
+// path condition), used to drop "mod 2^w" where an operation cannot wrap.
+func (s *Solver) hiOf(t *Term) float64 {
+	if t.S.K != KBV {
+		return 1
+	}
+	if t.Op == OConst {
+		return float64(t.C)
+	}
+	if v, ok := s.hiMemo[t.ID]; ok {
+		return v
+	}
+	full := float64Pow2(int(t.S.W)) / 0.999999
+	r := full
+	switch t.Op {
+	case OZExt:
+		r = s.hiOf(t.A[0])
+	case OAdd:
+		r = s.hiOf(t.A[0]) + s.hiOf(t.A[1])
+	case OMul:
+		r = s.hiOf(t.A[0]) * s.hiOf(t.A[1])
+	case OIte:
+		r = s.hiOf(t.A[1])
+		if x := s.hiOf(t.A[2]); x > r {
+			r = x
+		}
+	case OURem:
+		if t.A[1].IsConst() && t.A[1].C != 0 {
+			r = float64(t.A[1].C - 1)
+		}
+	case OUDiv:
+		r = s.hiOf(t.A[0])
+	case OBAnd:
+		r = s.hiOf(t.A[0])
+		if x := s.hiOf(t.A[1]); x < r {
+			r = x
+		}
+	case OExtract:
+		if x := s.hiOf(t.A[0]); t.I2 == 0 && x < float64Pow2(t.I1-t.I2+1) {
+			r = x
+		}
+	}
+	if r > full {
+		r = full
+	}
+	s.hiMemo[t.ID] = r
+	return r
+}
